@@ -21,6 +21,7 @@ import (
 	"net/http"
 	"os"
 	"sync"
+	"sync/atomic"
 	"testing"
 	"time"
 
@@ -69,6 +70,18 @@ type c06hObs struct {
 }
 
 const c06hCanary = "zz-canary"
+
+// c06hLate counts updates that did not become visible within the full bound although the change demonstrably reached the
+// notification mechanism. On a healthy tree this never happens; after a few of them (a broken watcher / syncer) the
+// remaining waits of this process are cut short so that a failing run stays bounded.
+var c06hLate int32
+
+func c06hBound(full time.Duration) time.Duration {
+	if atomic.LoadInt32(&c06hLate) >= 3 {
+		return 150 * time.Millisecond
+	}
+	return full
+}
 
 type c06hWorld struct {
 	mode    string
@@ -312,7 +325,7 @@ func c06hExec(raw json.RawMessage) interface{} {
 				for i, ch := range chans {
 					bound := 10 * time.Millisecond
 					if i == len(chans)-1 && curAlive {
-						bound = 2 * time.Second // the newest syncer belongs to the current generation; its reader is running
+						bound = c06hBound(2 * time.Second) // the newest syncer belongs to the current generation; its reader is running
 					}
 					select {
 					case ch <- kvs:
@@ -322,7 +335,7 @@ func c06hExec(raw json.RawMessage) interface{} {
 				}
 			}
 			st.Alive = c06hAlive(cur)
-			bound := 3 * time.Second
+			bound := c06hBound(3 * time.Second)
 			if !st.Alive {
 				bound = 50 * time.Millisecond // dead for good: nothing to wait for
 			}
@@ -343,6 +356,9 @@ func c06hExec(raw json.RawMessage) interface{} {
 				st.CtlVisible = handed
 			}
 			st.Visible = w.waitVisible(cur, bound)
+			if !st.Visible && st.Alive && st.CtlVisible {
+				atomic.AddInt32(&c06hLate, 1)
+			}
 			obs.Steps = append(obs.Steps, st)
 		case "req":
 			st := c06hHandle(cur, op.U, op.P)
